@@ -192,6 +192,8 @@ class SymEx:
         self.float_to_int = []     # floating values converted to an integer type (truncation)
         self.narrowings = []      # (to, from) of every precision-losing cast of a non-constant value
         self.narrow_bad = []      # those that narrow below the result type of the function under contract
+        self.narrowed_terms = []  # the value narrowed, in step with self.narrowings
+        self.int_to_float = []    # (to, from integer type, value) of every conversion of a non-constant integer value to a floating type
         self.pc = []             # path condition stack (bool terms)
         self.libm_calls = 0
 
@@ -566,6 +568,9 @@ class SymEx:
                     # a non-constant value loses precision here; whether that is legitimate depends on the precision of the
                     # result it flows into (judged by SymCall against the result type of the function under contract)
                     self.narrowings.append((t[1], src0[1]))
+                    self.narrowed_terms.append(a)
+                if src0[0] in ('i', 'enum') and not is_num(a):
+                    self.int_to_float.append((t[1], src0[1] if len(src0) > 1 else 'int', a))
                 if self.mode == 'LIT' and is_num(a):
                     return num(self.rnd(a[1], t))
                 if self.const_floor is not None and is_num(a) and self.FRANK[t[1]] < self.const_floor:
